@@ -188,6 +188,9 @@ def run(model: Model, rep: Report) -> None:
     # ---------------------------------------------------------------- R7
     _operand_safety(model, rep, spec)
     # ---------------------------------------------------------------- R8
+    from .c07 import char_width_rule
+
+    char_width_rule(model, rep, "C05-R9")
     r8 = rep.rule("C05-R8", "WRITESET", "content spread over several streams: refilling carries the scanner state and inserts nothing", 1)
     fb = model.func(PI + "PDFContentParser.fillbuf")
     w = set(self_fields_written(fb))
